@@ -5,10 +5,12 @@ use vcheck::fuzzsupport::{eval, Bytes};
 use vcheck::{c12, c13};
 
 fuzz_target!(|data: &[u8]| {
+    vcheck::fuzzsupport::guarded(|| {
     let mut b = Bytes::new(data);
     match b.u8() % 3 {
         0 => eval(&c13::C13, &c13::Case::F64 { bits: b.u64() }),
         1 => eval(&c13::C13, &c13::Case::F32 { bits: b.u64() as u32 }),
         _ => eval(&c12::C12, &c12::Case { x: b.d() }),
     }
+    });
 });
